@@ -19,23 +19,27 @@ Lemma flat_map_map {A B C} (g: A -> B) (f: B -> list C) (l: list A) :
   flat_map f (map g l) = flat_map (fun x => f (g x)) l.
 Proof. induction l as [|x l IH]; cbn; [reflexivity | now rewrite IH]. Qed.
 
-Lemma flat_map_single {A C} (f: A -> list C) (h: A -> C) (l: list A) :
-  (forall x, In x l -> f x = [h x]) -> flat_map f l = map h l.
+Lemma flat_mapM_single {A C} (f: A -> option (list C)) (h: A -> C) (l: list A) :
+  (forall x, In x l -> f x = Some [h x]) -> flat_mapM f l = Some (map h l).
 Proof.
   induction l as [|x l IH]; intros H; cbn; [reflexivity|].
-  rewrite (H x (or_introl eq_refl)). cbn. f_equal. apply IH. intros y Hy. apply H. now right.
+  rewrite (H x (or_introl eq_refl)). rewrite IH; [reflexivity|]. intros y Hy. apply H. now right.
 Qed.
 
+Lemma flat_mapM_map {A B C} (g: A -> B) (f: B -> option (list C)) (l: list A) :
+  flat_mapM f (map g l) = flat_mapM (fun x => f (g x)) l.
+Proof. induction l as [|x l IH]; cbn; [reflexivity | now rewrite IH]. Qed.
+
 (* the induction over the field list *)
-Lemma flat_map_filter_pointwise {A C} (keep: A -> bool) (f g: A -> list C) (l: list A) :
-  (forall x, In x l -> if keep x then f x = g x else g x = []) ->
-  flat_map f (filter keep l) = flat_map g l.
+Lemma flat_mapM_filter_pointwise {A C} (keep: A -> bool) (f: A -> option (list C)) (g: A -> list C) (l: list A) :
+  (forall x, In x l -> if keep x then f x = Some (g x) else g x = []) ->
+  flat_mapM f (filter keep l) = Some (flat_map g l).
 Proof.
   induction l as [|x l IH]; intros H; cbn; [reflexivity|].
   pose proof (H x (or_introl eq_refl)) as Hx.
-  assert (Hl: forall y, In y l -> if keep y then f y = g y else g y = []) by (intros y Hy; apply H; now right).
+  assert (Hl: forall y, In y l -> if keep y then f y = Some (g y) else g y = []) by (intros y Hy; apply H; now right).
   destruct (keep x); cbn.
-  - rewrite Hx. f_equal. now apply IH.
+  - rewrite Hx, (IH Hl). reflexivity.
   - rewrite Hx. cbn. now apply IH.
 Qed.
 
@@ -112,10 +116,10 @@ Proof. reflexivity. Qed.
 Lemma is_none_true v : is_none v = true -> v = PNone.
 Proof. destruct v; cbn; congruence. Qed.
 
-Lemma emit_kw_plain r : emit_kw plain_ctx (clear_row r) = [plain_entry r].
+Lemma emit_kw_plain r : emit_kw plain_ctx (clear_row r) = Some [plain_entry r].
 Proof.
   destruct r as [p [raw packed]]. rewrite plain_ctx_eq.
-  unfold emit_kw, plain_entry, plainv, clear_row, key_kw, guard, pval, nullable, default_is_none, default_value; cbn.
+  unfold emit_kw, plain_entry, plainv, clear_row, key_kw, guarded, guard, pval, nullable, default_is_none, default_value; cbn.
   destruct (p_alias p); destruct (p_tynull p); destruct (p_trivial p); cbn;
     destruct (is_none raw) eqn:En; cbn; try reflexivity;
     try (apply is_none_true in En; subst; reflexivity);
@@ -125,7 +129,7 @@ Qed.
 
 Lemma emit_lit_plain r :
   nullable (fst r) && negb (fst r).(p_trivial) = false ->
-  emit_lit plain_ctx (clear_row r) = [plain_entry r].
+  emit_lit plain_ctx (clear_row r) = Some [plain_entry r].
 Proof.
   destruct r as [p [raw packed]]. rewrite plain_ctx_eq. intros H.
   unfold emit_lit, plain_entry, plainv, clear_row, key_lit, pval in *; cbn in *.
@@ -139,24 +143,28 @@ Proof.
   assert (existsb f l = true) by (apply existsb_exists; eauto). congruence.
 Qed.
 
-Lemma plain_out_eq fs vs : plain_out fs vs = map plain_entry (combine fs vs).
+Lemma plain_model_eq fs vs :
+  to_dict_model plain_opts (map clear_omit fs) vs = Some (map plain_entry (combine fs vs)).
 Proof.
-  unfold plain_out, to_dict_model, body. cbn [o_sort plain_opts]. cbv zeta.
+  unfold to_dict_model, body. cbn [o_sort plain_opts]. cbv zeta.
   rewrite combine_map_l.
   change (fun r : fplan * fval => (clear_omit (fst r), snd r)) with clear_row.
   change (fplan * fval)%type with row.
   assert (Hf: forall l: list row, filter (fun r : row => negb (p_omit (fst r))) (map clear_row l) = map clear_row l).
   { induction l as [|r l IH]; cbn; [reflexivity | now rewrite IH]. }
-  rewrite Hf. fold plain_ctx. rewrite !flat_map_map.
+  rewrite Hf. fold plain_ctx. rewrite !flat_mapM_map.
   match goal with |- (if ?b then _ else _) = _ => destruct b eqn:E end.
-  - apply flat_map_single. intros r _. apply emit_kw_plain.
+  - apply flat_mapM_single. intros r _. apply emit_kw_plain.
   - unfold use_kwargs in E. rewrite plain_ctx_eq in E. cbn in E.
     rewrite !orb_false_r in E. rewrite andb_false_r, orb_false_r in E.
-    apply flat_map_single. intros r Hr.
+    apply flat_mapM_single. intros r Hr.
     apply emit_lit_plain.
     apply (existsb_false_in _ _ (fst (clear_row r))) in E; [exact E|].
     apply in_map, in_map, Hr.
 Qed.
+
+Lemma plain_out_eq fs vs : plain_out fs vs = map plain_entry (combine fs vs).
+Proof. unfold plain_out. now rewrite plain_model_eq. Qed.
 
 (* ------------------------------------------------------------------ *)
 (* one field: generated statement block = projection of the plain entry *)
@@ -165,16 +173,21 @@ Definition coherent (c: sctx) (e: eff) : Prop :=
   (if c.(s_fon) then c.(r_on) = e.(e_on) else c.(s_on) = e.(e_on)) /\
   (if c.(s_fba) then c.(r_ba) = e.(e_ba) else c.(s_ba) = e.(e_ba)).
 
-Lemma guard_eq od p raw : guard od p raw = negb (od && equals_default p raw).
+Lemma guard_eq od p raw packed : nan_ok (p, (raw, packed)) = true ->
+  guard od p raw = Some (negb (od && equals_default p raw)).
 Proof.
-  unfold guard, equals_default. destruct od; cbn; [|reflexivity].
-  destruct (default_value p) as [[]|]; reflexivity.
+  unfold nan_ok, guard, equals_default. cbn [fst snd]. destruct od; cbn; [|reflexivity].
+  destruct (default_value p) as [[]|]; try reflexivity. intros ->. reflexivity.
 Qed.
+
+Lemma guarded_eq od p raw packed l : nan_ok (p, (raw, packed)) = true ->
+  guarded (guard od p raw) l = Some (if od && equals_default p raw then [] else l).
+Proof. intros H. rewrite (guard_eq _ _ _ _ H). unfold guarded. destruct (od && equals_default p raw); reflexivity. Qed.
 
 Lemma py_eq_none_l d : py_eq PNone d = is_none d.
 Proof. destruct d; reflexivity. Qed.
 Lemma py_eq_none_r v : py_eq v PNone = is_none v.
-Proof. destruct v as [|[]| | | | |]; reflexivity. Qed.
+Proof. destruct v as [|[]| | | | | |]; reflexivity. Qed.
 
 Lemma equals_default_none_value p : equals_default p PNone = default_is_none p.
 Proof.
@@ -195,13 +208,14 @@ Qed.
 
 Lemma emit_kw_spec c e r :
   coherent c e -> row_ok r = true -> (fst r).(p_omit) = false ->
-  emit_kw c r = project_row e (r, plain_entry r).
+  emit_kw c r = Some (project_row e (r, plain_entry r)).
 Proof.
   intros Hc Hok Hom. pose proof (key_kw_spec c e (fst r) Hc) as Hk.
   destruct Hc as (Hod & Hon & _).
   destruct r as [p [raw packed]].
-  unfold emit_kw, project_row, plain_entry, plainv, dropped, row_ok in *; cbn [fst snd] in *.
-  rewrite Hom, Hk. cbn [orb]. rewrite !guard_eq. rewrite <- Hod.
+  unfold row_ok in Hok. apply andb_true_iff in Hok. destruct Hok as [Hok Hnan].
+  unfold emit_kw, project_row, plain_entry, plainv, dropped, none_ok in *; cbn [fst snd] in *.
+  rewrite Hom, Hk. cbn [orb]. rewrite !(guarded_eq _ _ _ packed) by exact Hnan. rewrite <- Hod.
   destruct (nullable p) eqn:En; cbn [andb] in *.
   - destruct (is_none raw) eqn:Enone; cbn [andb negb orb] in *.
     + (* raw is None *)
@@ -235,11 +249,12 @@ Lemma emit_lit_spec c e r :
   nullable (fst r) && (c.(s_on) || c.(s_fon)) = false ->
   c.(s_fba) && has_alias (fst r) = false ->
   c.(s_od) = false ->
-  emit_lit c r = project_row e (r, plain_entry r).
+  emit_lit c r = Some (project_row e (r, plain_entry r)).
 Proof.
   intros (Hod & Hon & Hba) Hok Hom Hnt Hnn Hal Hsod.
   destruct r as [p [raw packed]].
-  unfold emit_lit, project_row, plain_entry, plainv, dropped, row_ok in *; cbn [fst snd] in *.
+  unfold row_ok in Hok. apply andb_true_iff in Hok. destruct Hok as [Hok _].
+  unfold emit_lit, project_row, plain_entry, plainv, dropped, none_ok in *; cbn [fst snd] in *.
   rewrite Hom, <- Hod, Hsod. cbn [orb andb]. rewrite orb_false_r.
   assert (Hkey: key_lit c p = spec_key e p).
   { unfold key_lit, spec_key, has_alias in *. destruct (p_alias p); [|reflexivity].
@@ -264,13 +279,13 @@ Definition with_plain (r: row) : prow := (r, plain_entry r).
 Lemma body_rows (c: sctx) (e: eff) (rows: list row) :
   coherent c e -> (forall r, In r rows -> row_ok r = true) ->
   (if use_kwargs c (map fst (filter keep rows))
-   then flat_map (emit_kw c) (filter keep rows)
-   else flat_map (emit_lit c) (filter keep rows))
-  = flat_map (fun r => project_row e (with_plain r)) rows.
+   then flat_mapM (emit_kw c) (filter keep rows)
+   else flat_mapM (emit_lit c) (filter keep rows))
+  = Some (flat_map (fun r => project_row e (with_plain r)) rows).
 Proof.
   intros Hc Hrows.
   destruct (use_kwargs c (map fst (filter keep rows))) eqn:Eform.
-  - apply flat_map_filter_pointwise. intros r Hr. unfold keep.
+  - apply flat_mapM_filter_pointwise. intros r Hr. unfold keep.
     destruct (p_omit (fst r)) eqn:Eo; cbn.
     + unfold with_plain, project_row, dropped. cbn [fst snd]. rewrite Eo. reflexivity.
     + apply emit_kw_spec; auto.
@@ -278,7 +293,7 @@ Proof.
     apply orb_false_iff in Eform. destruct Eform as [Eform Hsod].
     apply orb_false_iff in Eform. destruct Eform as [Eform Hal].
     apply orb_false_iff in Eform. destruct Eform as [Hnt Hnn].
-    apply flat_map_filter_pointwise. intros r Hr. unfold keep.
+    apply flat_mapM_filter_pointwise. intros r Hr. unfold keep.
     destruct (p_omit (fst r)) eqn:Eo; cbn.
     + unfold with_plain, project_row, dropped. cbn [fst snd]. rewrite Eo. reflexivity.
     + assert (Hin: In (fst r) (map fst (filter keep rows))).
@@ -292,7 +307,7 @@ Qed.
 
 Theorem body_project (c: sctx) (e: eff) (fs: list fplan) (vs: list fval) :
   coherent c e -> vals_ok fs vs = true ->
-  body c e.(e_sort) (combine fs vs) = project e fs vs (plain_out fs vs).
+  body c e.(e_sort) (combine fs vs) = Some (project e fs vs (plain_out fs vs)).
 Proof.
   intros Hc Hv. unfold vals_ok in Hv. apply andb_true_iff in Hv. destruct Hv as [_ Hv].
   unfold project. cbv zeta. rewrite plain_out_eq, combine_self_map.
@@ -338,7 +353,7 @@ Proof.
 Qed.
 
 Definition project_statement (o: opts) (fs: list fplan) (vs: list fval) : Prop :=
-  to_dict_model o fs vs = project (eff_of o) fs vs (plain_out fs vs).
+  to_dict_model o fs vs = Some (project (eff_of o) fs vs (plain_out fs vs)).
 
 Theorem project_partial o fs vs :
   kw_ok o = true -> vals_ok fs vs = true -> flag_defaults_ok o = true -> project_statement o fs vs.
@@ -351,7 +366,7 @@ Qed.
 (* the produced mapping (dict semantics: a repeated key keeps its first position, last value) *)
 Corollary project_partial_dict o fs vs :
   kw_ok o = true -> vals_ok fs vs = true -> flag_defaults_ok o = true ->
-  dict_of (to_dict_model o fs vs) = dict_of (project (eff_of o) fs vs (plain_out fs vs)).
+  option_map dict_of (to_dict_model o fs vs) = Some (dict_of (project (eff_of o) fs vs (plain_out fs vs))).
 Proof. intros Hk Hv Hd. now rewrite (project_partial o fs vs Hk Hv Hd). Qed.
 
 (* ------------------------------------------------------------------ *)
@@ -365,7 +380,7 @@ Definition d14_fields : list fplan :=
     {| p_name := "b"; p_alias := Some "bb"; p_tynull := false; p_trivial := true; p_default := DVal (PInt 1); p_omit := false |} ].
 Definition d14_vals : list fval := [(PNone, PNone); (PInt 1, PInt 1)].
 
-Lemma d14_model : to_dict_model d14_opts d14_fields d14_vals = [("a", PNone); ("b", PInt 1)].
+Lemma d14_model : to_dict_model d14_opts d14_fields d14_vals = Some [("a", PNone); ("b", PInt 1)].
 Proof. reflexivity. Qed.
 Lemma d14_spec : project (eff_of d14_opts) d14_fields d14_vals (plain_out d14_fields d14_vals) = [("bb", PInt 1)].
 Proof. reflexivity. Qed.
@@ -376,6 +391,20 @@ Proof.
   intros H. specialize (H d14_opts d14_fields d14_vals eq_refl eq_refl).
   unfold project_statement in H. rewrite d14_model, d14_spec in H. discriminate.
 Qed.
+
+(* a NaN default under omit_default: `not isnan(value)` is evaluated on None *)
+Definition nan_opts : opts :=
+  {| o_call := None; o_cfgd := None; o_cfg := {| n_on := U; n_od := T; n_ba := U |}; o_dd := None; o_sort := false;
+     o_fon := false; o_fba := false; o_fdl := false; o_fcx := false; o_kon := None; o_kba := None |}.
+Definition nan_fields : list fplan :=
+  [ {| p_name := "m"; p_alias := None; p_tynull := true; p_trivial := true; p_default := DVal PNaN; p_omit := false |} ].
+Definition nan_vals : list fval := [(PNone, PNone)].
+
+Theorem nan_default_refuted :
+  kw_ok nan_opts = true /\ vals_ok_weak nan_fields nan_vals = true /\ flag_defaults_ok nan_opts = true /\
+  to_dict_model nan_opts nan_fields nan_vals = None /\
+  project (eff_of nan_opts) nan_fields nan_vals (plain_out nan_fields nan_vals) = [("m", PNone)].
+Proof. repeat split; reflexivity. Qed.
 
 (* the corner is exactly D14: outside flag_defaults_ok the body still projects, but with the
    DEFAULT METHOD's keyword defaults instead of the call dialect's values *)
@@ -395,7 +424,7 @@ Qed.
 
 Theorem project_actual o fs vs :
   kw_ok o = true -> vals_ok fs vs = true ->
-  to_dict_model o fs vs = project (eff_d14 o) fs vs (plain_out fs vs).
+  to_dict_model o fs vs = Some (project (eff_d14 o) fs vs (plain_out fs vs)).
 Proof.
   intros Hk Hv. unfold to_dict_model. change (o_sort o) with (e_sort (eff_d14 o)).
   apply body_project; [now apply coherent_d14 | exact Hv].
